@@ -945,10 +945,13 @@ c_status_t UMFindData(const UMessage * msg, const char * fieldName, uint32 dataT
       pointerToBlob += blobSize+sizeof(uint32);  /* move past the blob and the next blob's string-length-field */
       idx--;
    }
-   if (pointerToBlob >= afterEndOfField) return CB_ERROR;
+   if (pointerToBlob > afterEndOfField) return CB_ERROR;  /* (pointerToBlob == afterEndOfField) is okay if the last blob is zero bytes long */
+
+   const uint32 lastBlobSize = UMReadInt32(pointerToBlob-sizeof(uint32));
+   if (lastBlobSize > (uint32)(afterEndOfField-pointerToBlob)) return CB_ERROR;
 
    *retDataBytes = pointerToBlob;
-   *retNumBytes  = UMReadInt32(pointerToBlob-sizeof(uint32));
+   *retNumBytes  = lastBlobSize;
    return CB_NO_ERROR;
 }
 
